@@ -150,14 +150,21 @@ class ExpandedTraceback:
         """
         Filter out unnecessary frames
         """
-        if not self.exception:
+        if self.exception is None:
             return []
         cl, exc, tb = self.exc_info
         while tb and self._is_relevant_tb_level(tb):
             tb = tb.tb_next
         length = self._count_relevant_tb_levels(tb)
-        tb_e = traceback.TracebackException(cl, self.exception, tb, limit=length,
-                                            capture_locals=False)
+        try:
+            tb_e = traceback.TracebackException(cl, self.exception, tb, limit=length,
+                                                capture_locals=False)
+        except Exception:
+            # The traceback module inspects the exception object itself (its
+            # truth value, __cause__, __notes__), which a student-defined class
+            # can make fail; only the stack is needed here.
+            tb_e = traceback.TracebackException(Exception, Exception(), tb, limit=length,
+                                                capture_locals=False)
         for frame in tb_e.stack:
             self._fix_frame_line(frame)
         frames = list(tb_e.stack)
